@@ -407,7 +407,11 @@ func (env *SpecEnv) modelField(owner Val, name string) (Val, bool) {
 	t := Select(arr, ref)
 	if mf.Dims == 0 {
 		rec := ""
-		if mf.Elem != "Int" && mf.Elem != "Bool" {
+		if mf.Elem == "U64" {
+			// a height-like counter: a uint64 that never reaches 2^64-1 (assumption)
+			lim := Sub(Pow2(64), IntLit(1))
+			env.st.addFact(And(Ge(t, IntLit(0)), Lt(t, lim)))
+		} else if mf.Elem != "Int" && mf.Elem != "Bool" {
 			rec = mf.Elem
 		}
 		return VInt{T: t, Rec: rec}, true
